@@ -7,12 +7,14 @@ HERE = os.path.dirname(os.path.dirname(os.path.abspath(__file__)))
 WT = "/tmp/vf_seed_wt"
 def sh(*a, **k): return subprocess.run(a, capture_output=True, text=True, **k)
 head = subprocess.check_output(["git", "-C", "/repo", "rev-parse", "HEAD"], text=True).strip()
+SKIP_FILE = os.path.join(HERE, "replays", "no_regression_replay.json")
+skip = json.load(open(SKIP_FILE)) if os.path.exists(SKIP_FILE) else []  # pairs for which no single input could be pinned
 for d in sorted(glob.glob(os.path.join(HERE, "seeded", "*"))):
     meta = json.load(open(os.path.join(d, "meta.json")))
     name = meta["name"]
     for prop in meta.get("caught_by", []):
         dest = os.path.join(HERE, "replays", f"{prop}_reg_{name}.json")
-        if os.path.exists(dest): continue
+        if os.path.exists(dest) or [prop, name] in skip: continue
         sh("git", "-C", "/repo", "worktree", "remove", "--force", WT)
         sh("git", "-C", "/repo", "worktree", "add", "-f", "--detach", WT, head)
         sh("git", "-C", WT, "apply", os.path.join(d, "patch.diff"))
@@ -33,5 +35,8 @@ for d in sorted(glob.glob(os.path.join(HERE, "seeded", "*"))):
                     break
             shutil.rmtree(ev, ignore_errors=True)
             if ok: break
-        print(prop, name, "saved" if ok else "NO REPLAY")
+        print(prop, name, "saved" if ok else "NO REPLAY", flush=True)
+        if not ok:
+            skip.append([prop, name])
+            json.dump(skip, open(SKIP_FILE, "w"), indent=1)
 sh("git", "-C", "/repo", "worktree", "remove", "--force", WT)
